@@ -282,6 +282,12 @@ struct Sess {
 }
 
 const SUM_MOD: u64 = 1_000_003;
+/// sessions of this run that ended in a time-out (each is a violation already); the remaining ones then wait less, so that a
+/// server that answers nothing does not cost hours
+static TIMEOUTS_SEEN: AtomicUsize = AtomicUsize::new(0);
+fn wait_secs(generous: u64) -> u64 {
+    match TIMEOUTS_SEEN.load(Ordering::SeqCst) { 0..=3 => generous, 4..=12 => 10, _ => 2 }
+}
 
 /// a run of text frames of one stream id (flushed into one txt_sum event)
 struct TxtRun {
@@ -394,6 +400,7 @@ impl Sess {
                 None
             }
             Frame::Timeout => {
+                TIMEOUTS_SEEN.fetch_add(1, Ordering::SeqCst);
                 self.push(json!({"ev":"timeout"}));
                 self.dead = true;
                 None
@@ -411,7 +418,7 @@ impl Sess {
             return None;
         }
         loop {
-            let fr = self.conn.recv(Duration::from_secs(60));
+            let fr = self.conn.recv(Duration::from_secs(wait_secs(60)));
             if let Some(t) = self.on_frame(fr) {
                 return Some(t);
             }
@@ -430,7 +437,7 @@ impl Sess {
     /// loop iterations (sentinel round trips, 40 ms apart) sent no stream frame. Generous limit, no verdict here.
     fn quiesce(&mut self, n: u64) -> bool {
         let t0 = Instant::now();
-        let limit = Duration::from_secs(90);
+        let limit = Duration::from_secs(wait_secs(90));
         while !self.dead && self.file_msgs < n && t0.elapsed() < limit {
             let fr = self.conn.recv(Duration::from_millis(300));
             if let Frame::Timeout = fr {
@@ -485,6 +492,7 @@ fn run_srv_case(port: u16, case: usize, cs: &SrvCase, logs: &[LogFile], logline:
             break 'run;
         }
         if cs.late && !s.quiesce(n) {
+            TIMEOUTS_SEEN.fetch_add(1, Ordering::SeqCst);
             s.push(json!({"ev":"timeout","at":"parse"}));
             break 'run;
         }
@@ -541,6 +549,7 @@ fn run_srv_case(port: u16, case: usize, cs: &SrvCase, logs: &[LogFile], logline:
         }
         if !s.quiesce(n) {
             if !s.dead {
+                TIMEOUTS_SEEN.fetch_add(1, Ordering::SeqCst);
                 s.push(json!({"ev":"timeout","at":"quiescence"}));
             }
             break 'run;
@@ -553,7 +562,8 @@ fn run_srv_case(port: u16, case: usize, cs: &SrvCase, logs: &[LogFile], logline:
                 }
                 if !s.quiesce(n) {
                     if !s.dead {
-                        s.push(json!({"ev":"timeout","at":"quiescence"}));
+                        TIMEOUTS_SEEN.fetch_add(1, Ordering::SeqCst);
+                s.push(json!({"ev":"timeout","at":"quiescence"}));
                     }
                     break 'run;
                 }
